@@ -216,6 +216,10 @@ def run(prog, rep, tier):
                 'append_file_content can record a run (mark_continuous_block) and return Ok without writing a block (%s): polling a file with empty appends grows the per-file ' \
                 'offset list without bound' % ab.loc(oks[0])
         rep.ob('R15.2', okm, 'R15.2|%s|run-recorded-only-with-a-block' % (ab.nkey if len(af) == 1 else '?'), msg, ab.loc())
+    # "proportional to the number of non-contiguous runs": a run is opened only when the block does not follow a block of the same file, which needs
+    # current_id to name the file of the block written last (same rule as R09.5)
+    from .c09 import r09_5
+    r09_5(prog, rep, 'R15.3')
     # content is copied through io::copy on a bounded take, never materialised: ArchiveFileBlock::dump
     dump = prog.body('mla', 'ArchiveFileBlock::<T>::dump')
     if dump is not None:
